@@ -314,6 +314,20 @@ def signal_failure(vc):
         def add_failure(self, exc):
             return verdict
     host.attrs['conviction_policy'] = CP()
-    vc.stub(CL + 'on_down', lambda self_, h, *a, **k: log.append(('on_down', a)))
-    r = vc.call(CL + 'signal_connection_failure', cl, host, 'exc', False)
+    seen = []
+
+    def on_down(self_, h, is_host_addition, expect_host_to_be_down=False):
+        log.append(('on_down', h))
+        seen.append((h, is_host_addition, expect_host_to_be_down))
+    vc.stub(CL + 'on_down', on_down)
+    addition = vc.choice('is_host_addition', [False, True])
+    expected_down = vc.choice('expect_host_to_be_down', [None, False, True])     # None: the caller leaves the default
+    if expected_down is None:
+        r = vc.call(CL + 'signal_connection_failure', cl, host, 'exc', addition)
+    else:
+        r = vc.call(CL + 'signal_connection_failure', cl, host, 'exc', addition, expect_host_to_be_down=expected_down)
     vc.check('post/on_down-iff-convicted', r is verdict and _count(log, 'on_down') == (1 if verdict else 0))
+    if verdict:
+        # a pool that could not be opened for a host that was never up (Session.add_or_renew_pool passes expect_host_to_be_down=True) must still get the
+        # full down handling - reconnector and listener notification - so the flag has to reach on_down
+        vc.check('post/down-handling-told-what-the-caller-said', seen == [(host, addition, bool(expected_down))])
